@@ -31,6 +31,7 @@ def run(ctx, rep):
         check_only(crate, opt, rep, cfg)
         check_dumpvar(crate, opt, vm, rep, cfg)
         check_fused_load(crate, vm, rep, cfg)
+        check_fused_write(crate, vm, rep, cfg)
 
 
 def check_fused_load(crate, vm, rep, cfg):
@@ -95,6 +96,39 @@ def check_fused_load(crate, vm, rep, cfg):
                     ok = False
     rep.add("C09.FUSED", "C09.FUSED:WritePath:missing-attribute-is-an-error", ok, vm.where(ga[0][0]) if ga else vm.where(0), "in the fused WritePath arm the None edge of get_attr reaches "
             "the next instruction only through undefined_field_error (never prints a missing field)" + ("" if ok else " — VIOLATED"))
+
+
+def check_fused_write(crate, vm, rep, cfg):
+    """C09.FUSED — the fused WritePath arm decides raw-vs-escaped exactly like the WriteTop it replaces: both ask the VM's effective setting
+    (VirtualMachine::autoescape_enabled — API override, else template flag) and the value's safe mark, and neither looks at the template flag
+    or the override on its own."""
+    from props.c03 import vm_arm
+    tr = Tracer(vm)
+    sigs = {}
+    direct = {}
+    for variant in ("WriteTop", "WritePath"):
+        reg = vm_arm(vm, crate, variant)
+        sig = set()
+        for bb, t in vm.calls(sorted(reg)):
+            cd = callee_def(t)
+            if cd.endswith("VirtualMachine::<'tera>::autoescape_enabled") or cd.endswith("value::Value::is_safe"):
+                # the answer must be what a branch tests
+                sig.add(cd.rsplit("::", 1)[-1])
+        sw = set()
+        for sb in sorted(reg):
+            t = vm.term(sb)
+            if t["k"] == "switch":
+                for l in tr.operand(t["op"]):
+                    if l.kind == "call" and (l.detail[0].endswith("autoescape_enabled") or l.detail[0].endswith("Value::is_safe")):
+                        sw.add(l.detail[0].rsplit("::", 1)[-1])
+                    if l.kind == "param" and (".autoescape_enabled" in l.projs or ".autoescape_override" in l.projs):
+                        direct.setdefault(variant, []).append(sb)
+        sigs[variant] = (sig, sw)
+    want = {"autoescape_enabled", "is_safe"}
+    ok = all(sigs[v][0] == want and sigs[v][1] == want for v in sigs) and not direct
+    why = "; ".join("%s tests %s" % (v, sorted(sigs[v][1])) for v in sorted(sigs)) + ("; reads the flag/override field directly in %s" % sorted(direct) if direct else "")
+    rep.add("C09.FUSED", "C09.FUSED:WritePath:same-escape-decision-as-WriteTop", ok, vm.where(0), "WriteTop and WritePath both branch on VirtualMachine::autoescape_enabled() and "
+            "Value::is_safe(), never on Template.autoescape_enabled / autoescape_override alone" + ("" if ok else " — VIOLATED: " + why))
 
 
 def variant_switches(body, crate, adt_suffix):
